@@ -1,5 +1,5 @@
 import Props.C14
-import Props.C02Json
+import Props.C02e
 /-!
 # C02 — EMF output is always complete, newline-framed, valid JSON records
 
@@ -44,7 +44,7 @@ theorem c02_error_writes_nothing (c : Consts) (s : State) (call : Call) (errs : 
     split
     · rfl
     · rename_i hne
-      simp only [hne, ↓reduceIte] at h
+      simp only [hne] at h
       exact absurd h (finishWrite_not_validation c _ _ _ _ errs)
 
 /-- **C02: `rate <= 0` or NaN writes nothing** (and is reported as a validation error, and leaves the
@@ -63,8 +63,85 @@ theorem c02_escape (s : Bytes) : IsVal (jstr s) ∧ IsKey (jstr s) ∧ 10 ∉ js
   obtain ⟨m', hr, -⟩ := IsVal.jstr s [] .val (Or.inl rfl)
   exact run_compact_no_nl hr
 
+/-- what C02 says about one record line: it is a body followed by exactly one newline; the body has
+the EMF shape (an object whose first member `_aws` is an object holding `CloudWatchMetrics`, an array
+of directive objects each with `Namespace`, `Dimensions`, `Metrics`, and an integer `Timestamp`);
+the body is compact JSON, the whole line is accepted by the strict recogniser, and the body
+contains no raw newline. -/
+def ValidRecordLine (l : Bytes) : Prop :=
+  ∃ body, l = body ++ [10] ∧ AwsShape body ∧ acceptsCompact body = true ∧ accepts l = true ∧ 10 ∉ body
+
+theorem validRecordLine_of_shape {l body : Bytes} (hl : l = body ++ [10]) (h : AwsShape body) :
+    ValidRecordLine l := by
+  have hc := h.isVal.acceptsCompact
+  obtain ⟨ha, hn⟩ := acceptsCompact_line hc
+  exact ⟨body, hl, h, hc, hl ▸ ha, hn⟩
+
+/-- **C02, main theorem.** For every configuration, every formatter state reachable by any history
+of calls, every entry (any sequence of writer calls: any names and strings, any observation lists
+with NaN / infinities / zero-occurrence / empty distributions in any position, any units,
+dimensions, flags, entry configuration), every sampling multiplicity or none, provided every float
+text is a JSON number (`fmtOk`, the `dtoa` law checked at run time) and the writer does not fail:
+if the call reports success then the bytes written are one or more complete lines, each of which is
+a valid record line (`ValidRecordLine`). -/
+theorem c02_lines_valid (cfg : Config) {s : State} (hs : Reachable cfg s) (call : Call)
+    (hfmt : call.fmtOk = true) (hio : call.ioBudget = none)
+    (hok : (format (Consts.ofConfig cfg) s call).2.1 = .ok) :
+    ∃ lines, lines ≠ [] ∧ (format (Consts.ofConfig cfg) s call).2.2.bytes = lines.flatten ∧
+      ∀ l ∈ lines, ValidRecordLine l := by
+  rw [c14_history_independent cfg hs call] at hok ⊢
+  unfold format at hok ⊢
+  cases hb : call.badRate with
+  | true => simp [hb] at hok
+  | false =>
+    simp only [hb, Bool.false_eq_true, ↓reduceIte] at hok ⊢
+    unfold formatWithMultiplicity at hok ⊢
+    have hitems : ∀ it ∈ call.items, it.fmtOk = true := by
+      simpa [Call.fmtOk, List.all_eq_true] using hfmt
+    have hinv := foldl_applyItem_inv call.mult call.items hitems (WInv.start cfg)
+    rw [hio] at hok ⊢
+    have herr := finish_ok_errors _ _ _ _ hok
+    obtain ⟨lines, hne, heq, hl⟩ := finish_spec cfg hinv call.nowMs herr
+    refine ⟨lines, hne, by rw [heq], ?_⟩
+    intro l hlm
+    obtain ⟨body, hb, hshape⟩ := hl l hlm
+    exact validRecordLine_of_shape hb hshape
+
+/-- **C02, JSON corollary** (the statement in the words of the property): on success every emitted
+line is accepted by the strict JSON recogniser and ends with its only raw newline. -/
+theorem c02_lines_parse (cfg : Config) {s : State} (hs : Reachable cfg s) (call : Call)
+    (hfmt : call.fmtOk = true) (hio : call.ioBudget = none)
+    (hok : (format (Consts.ofConfig cfg) s call).2.1 = .ok) :
+    ∃ lines, lines ≠ [] ∧ (format (Consts.ofConfig cfg) s call).2.2.bytes = lines.flatten ∧
+      ∀ l ∈ lines, accepts l = true ∧ ∃ body, l = body ++ [10] ∧ 10 ∉ body := by
+  obtain ⟨lines, hne, heq, hl⟩ := c02_lines_valid cfg hs call hfmt hio hok
+  refine ⟨lines, hne, heq, fun l hlm => ?_⟩
+  obtain ⟨body, hb, -, -, ha, hn⟩ := hl l hlm
+  exact ⟨ha, body, hb, hn⟩
+
+/-! ### Non-vacuity: an entry with two strings (one needing escapes), a 4-observation distribution with
+NaN first and last, one split metric, two namespaces, sampled with multiplicity 2: accepted, two
+lines, and the Lean recogniser accepts both (evaluated by the kernel). The same distribution ending
+in NaN is the regression witness of the repaired defect (`"Values":[1,]`). -/
+
+example :
+    exSplit.fmtOk = true ∧ exSplit.ioBudget = none ∧
+    (format (Consts.ofConfig exCfg) (State.fresh exCfg) exSplit).2.1 = .ok := by
+  decide +kernel
+
+/-- a distribution whose last observation is NaN: `{"Values":[1],"Counts":[1]}`, no trailing comma -/
+example :
+    (format (Consts.ofConfig exCfg) (State.fresh exCfg)
+      { items := [.timestamp 0, .value (bytes! "Op") (.str []),
+          .value (bytes! "M") (.metric [.unsigned 1, .floating none] none [] .none)],
+        mult := none, badRate := false, nowMs := 0, ioBudget := none }).2.2.bytes =
+    bytes! "{\"_aws\":{\"CloudWatchMetrics\":[{\"Namespace\":\"Ns\",\"Dimensions\":[[\"Op\"]],\"Metrics\":[{\"Name\":\"M\"}]},{\"Namespace\":\"N2\",\"Dimensions\":[[\"Op\"]],\"Metrics\":[{\"Name\":\"M\"}]}],\"Timestamp\":0},\"M\":{\"Values\":[1],\"Counts\":[1]},\"Op\":\"\"}\n" := by
+  decide +kernel
+
 end Emf
 
 #print axioms Emf.c02_error_writes_nothing
 #print axioms Emf.c02_rate_invalid_writes_nothing
 #print axioms Emf.c02_escape
+#print axioms Emf.c02_lines_valid
+#print axioms Emf.c02_lines_parse
